@@ -139,6 +139,16 @@ def event_for_case(samples, cid, nc, ids, variant):
         # two leading dimensions: shape (2, 3, N, N); as_dict values must be the (2, 3) slices
         grid = [[M, M2, M], [M2, M2, M]]
         st2 = ConfusionMatrix(matrix=np.array(grid), classes=cls)
+        # indexing, equality, array conversion, class count (beyond the listed property: EXT clause)
+        sub = st2[1]
+        e["ext"] = {"nb_classes": int(st2.nb_classes),
+                    "getitem": bool(isinstance(sub, ConfusionMatrix) and np.array_equal(sub.matrix, np.array(grid)[1])
+                                    and list(sub.classes) == list(st2.classes)
+                                    and np.array_equal(st2[1, 2].matrix, np.array(grid)[1][2])),
+                    "array": bool(np.array_equal(np.asarray(st2), np.array(grid))),
+                    "eq": bool(st2 == ConfusionMatrix(matrix=np.array(grid).copy(), classes=list(cls))
+                               and not (st2 == ConfusionMatrix(matrix=np.array(grid) + np.eye(n), classes=list(cls)))
+                               and (n < 2 or not (st2 == ConfusionMatrix(matrix=np.array(grid), classes=list(cls)[::-1]))))}
         e["stacked2"] = {}
         for name in METRICS[:6] + ["tpr_ci"]:
             arr = np.asarray(getattr(st2, name)())
